@@ -1,9 +1,171 @@
 import Driver.Util
+import Mtv.Session.Store
 namespace Driver.C12
-open Mtv Driver
+open Mtv Mtv.Session Driver
 
-/-- operations of property C12; not built yet -/
+/-- `key,hash,salt,hostname` (bytes tokens, decimal salt) -/
+def parseSess? (t : String) : Option Session :=
+  match t.splitOn "," with
+  | [k, h, s, n] => do
+    pure { key := ← parseBytes? k, hash := ← parseBytes? h, salt := ← s.toInt?, hostname := ← parseBytes? n }
+  | _ => none
+
+def showSess (s : Session) : String :=
+  s!"{showBytes s.key}/{showBytes s.hash}/{s.salt}/{showBytes s.hostname}"
+
+def showRes : Outcome Session → String
+  | .ok s => "ok:" ++ showSess s
+  | .err k => "err:" ++ k
+  | .panic p => "panic:" ++ p
+
+def showUnit : Outcome Unit → String
+  | .ok _ => "ok"
+  | .err k => "err:" ++ k
+  | .panic p => "panic:" ++ p
+
+def str (s : String) : Bytes := s.toUTF8.toList
+
+/-- the path a shape stands for, and the directories that exist -/
+def shape? : String → Option (Path × List Path)
+  | "abs" => some (str "/w/d/s.json", [str "/w/d/", str "."])
+  | "rel" => some (str "d/s.json", [str "d/", str "."])
+  | "dotrel" => some (str "./s.json", [str "./", str "."])
+  | "bare" => some (str "s.json", [str "."])
+  | "nodir" => some (str "/w/missing/s.json", [str "."])
+  | "relnodir" => some (str "missing/s.json", [str "."])
+  | _ => none
+
+def mkFS (dirs : List Path) : FS := ⟨fun q => if q ∈ dirs then some .dir else none⟩
+
+def FS.remove (fs : FS) (p : Path) : FS := ⟨fun q => if q = p then none else fs.stat q⟩
+
+structure World where
+  path : Path
+  fs : FS
+  loaders : List Loader   -- loaders 0..2
+
+def World.loader (w : World) (i : Nat) : Loader := w.loaders.getD i (Loader.new w.path)
+
+def World.setLoader (w : World) (i : Nat) (l : Loader) : World := { w with loaders := w.loaders.set i l }
+
+def mkWorld (path : Path) (dirs : List Path) : World :=
+  { path := path, fs := mkFS dirs, loaders := List.replicate 3 (Loader.new path) }
+
+/-- one item of a history; `none` = ill-formed -/
+def runItem (w : World) (t : String) : Option (World × String) :=
+  match t.splitOn ":" with
+  | ["S", i, sess, m] => do
+    let i ← i.toNat?
+    let s ← parseSess? sess
+    let m ← m.toNat?
+    if i ≥ 3 then none else
+    let (l, fs, o) := (w.loader i).store w.fs s m
+    pure ({ w.setLoader i l with fs := fs }, showUnit o)
+  | ["L", i] => do
+    let i ← i.toNat?
+    if i ≥ 3 then none else
+    let (l, o) := (w.loader i).load w.fs
+    pure (w.setLoader i l, showRes o)
+  | ["F"] =>
+    let (_, o) := (Loader.new w.path).load w.fs
+    some (w, showRes o)
+  | ["X", content, m] => do
+    let c ← parseBytes? content
+    let m ← m.toNat?
+    pure ({ w with fs := w.fs.write w.path c m }, "ok")
+  | ["D"] => some ({ w with fs := FS.remove w.fs w.path }, "ok")
+  | _ => none
+
+def runItems (w : World) : List String → Option (List String)
+  | [] => some []
+  | t :: ts => do
+    let (w', o) ← runItem w t
+    let rest ← runItems w' ts
+    pure (o :: rest)
+
+/-- classes of the load results of all strict prefixes of `data`, in order of first appearance
+replaced by a fixed order -/
+def prefixClasses (data : Bytes) : List (String × Nat) :=
+  let outs := (List.range data.length).map fun k =>
+    match readSession (data.take k) with
+    | .ok _ => "ok"
+    | .err e => e
+    | .panic _ => "panic"
+  ["ok", "syntax", "type", "b64key", "b64hash", "b64salt", "panic"].filterMap fun c =>
+    let n := (outs.filter (· == c)).length
+    if n = 0 then none else some (c, n)
+
+def cfgHost : Bytes := str "cfg.host:443"
+
 def handle : List String → String
+  | ["c12.b64", b] =>
+    match parseBytes? b with
+    | some bs =>
+      let e := b64Encode bs
+      let d := match b64Decode e with | some x => "ok:" ++ showBytes x | none => "err"
+      s!"enc={showBytes e} dec={d}"
+    | none => "bad-op"
+  | ["c12.b64d", t] =>
+    match parseBytes? t with
+    | some bs => match b64Decode bs with | some x => "ok:" ++ showBytes x | none => "err"
+    | none => "bad-op"
+  | ["c12.file", c] =>
+    match parseBytes? c with
+    | some data => showRes (readSession data)
+    | none => "bad-op"
+  | ["c12.rt", sh, sess] =>
+    match shape? sh, parseSess? sess with
+    | some (p, dirs), some s =>
+      let fs := mkFS dirs
+      let (l, fs1, o) := (Loader.new p).store fs s 0
+      let file := match fs1.stat p with | some (.file d _) => showBytes d | _ => "none"
+      let (_, same) := l.load fs1
+      let (_, fresh) := (Loader.new p).load fs1
+      s!"store={showUnit o} file={file} same={showRes same} fresh={showRes fresh}"
+    | _, _ => "bad-op"
+  | "c12.seq" :: sh :: items =>
+    match shape? sh with
+    | some (p, dirs) =>
+      match runItems (mkWorld p dirs) items with
+      | some outs => joinSp outs
+      | none => "bad-op"
+    | none => "bad-op"
+  | "c12.nat" :: sh :: items =>
+    match shape? sh with
+    | some (p, dirs) =>
+      match runItems (mkWorld p dirs) items with
+      | some outs => joinSp outs
+      | none => "bad-op"
+    | none => "bad-op"
+  | ["c12.torn", sess] =>
+    match parseSess? sess with
+    | some s =>
+      let data := writeSession s
+      let cls := (prefixClasses data).map fun (c, n) => s!"{c}={n}"
+      s!"n={data.length} {joinSp cls}"
+    | none => "bad-op"
+  | ["c12.resume", present, sess] =>
+    match parseSess? sess with
+    | some s =>
+      let p := str "/w/d/s.json"
+      let fs0 := mkFS [str "/w/d/", str "."]
+      let data := writeSession s
+      let fs? : Option FS :=
+        if present = "1" then some (fs0.write p data 0)
+        else if present = "0" then some fs0
+        else match present.toList with
+          | 't' :: k => (String.ofList k).toNat?.map fun k => fs0.write p (data.take k) 0
+          | _ => none
+      match fs? with
+      | none => "bad-op"
+      | some fs =>
+        match newClient (Loader.new p) fs cfgHost with
+        | .ok c =>
+          let saved : Session := { key := c.authKey, hash := c.authKeyHash, salt := c.serverSalt, hostname := c.addr }
+          s!"enc={if c.encrypted then 1 else 0} key={showBytes c.authKey} salt={c.serverSalt} saved={showSess saved}"
+        | .err e => "err:" ++ e
+        | .panic q => "panic:" ++ q
+    | none => "bad-op"
   | _ => "bad-op"
 
 end Driver.C12
